@@ -156,6 +156,15 @@ class ListModel:
                 else:
                     raise Unknown('list part ' + show(part)[:80])
             return
+        # a vectorised expression over np.arange(n) / np.arange(lo, n): entry x is the expression at arange := x
+        ar = [x for x in walk(t) if x[0] == 'call' and show(x[1]) in ('np.arange', 'numpy.arange') and len(x[2]) in (1, 2) and not (len(x) > 3 and x[3])]
+        if t[0] in ('bin', 'un') and ar and all(a == ar[0] for a in ar):
+            lo, hi = (C(0), ar[0][2][0]) if len(ar[0][2]) == 1 else ar[0][2]
+            if lo == C(0):
+                b = ('bvar', -18, 'x', CALL(S('range'), [lo, hi]))
+                self.length = hi
+                self.ranges.append((lo, hi, b, subst(t, lambda x, a=ar[0], b=b: b if x == a else None)))
+                return
         raise Unknown('weight list ' + show(t)[:100])
 
 
@@ -259,7 +268,8 @@ def check_path(rep, f, t, names, n_t, s_t, cond_txt, subst_s, n_is_one, unknown_
     nm[b] = 'x'
     try:
         fx = rat(val, nm)
-        first = rat(lm.points.get(0, lm.default if lo == C(0) else C(0)), nm) if (0 in lm.points or lo == C(0)) else None
+        p0_ = lm.points.get(0, lm.default if lo == C(0) else C(0))
+        first = rat(p0_, nm) if ((0 in lm.points or lo == C(0)) and p0_ is not None) else None
     except Unknown as u:
         rep.inconclusive('C17.R1', w, 'the weight formula is a rational function of (x, n, s) [%s]' % cond_txt, got=str(u))
         return
